@@ -4,7 +4,7 @@
 patch="$1"; prop="$2"; tier="${3:-quick}"
 if ! git -C /repo diff --quiet; then echo "mutant.sh: /repo has uncommitted changes"; exit 2; fi
 git -C /repo apply "$patch" || { echo "mutant.sh: patch does not apply: $patch"; exit 2; }
-VERIF_REPLAY_DIR=/var/tmp/mutant-replays /verif/bin/vcheck "$prop" "$tier" > /tmp/mutant.out 2>&1
+VERIF_EVIDENCE_DIR=/var/tmp/mutant-replays/evidence VERIF_REPLAY_DIR=/var/tmp/mutant-replays /verif/bin/vcheck "$prop" "$tier" > /tmp/mutant.out 2>&1
 rc=$?
 git -C /repo checkout -- .
 rm -rf /var/tmp/mutant-replays
